@@ -22,37 +22,87 @@ VARIABLES tid, l, s, phase, k, v
 
 tvars == <<tid, l, s, phase, k, v>>
 
-\* hostOnlyKey, staleExpiry, pathAlias, domainCase
+\* hostOnlyKey, staleExpiry, pathAlias, domainCase, epochExpires, badMaxAge
 \* Deviations repaired in /repo by `fix:` commits are no longer admissible explanations
-\* (hostOnlyKey, staleExpiry, domainCase); only pathAlias is still present in the code.
-StillPresent == <<FALSE, FALSE, TRUE, FALSE>>
+\* (hostOnlyKey, staleExpiry, domainCase); pathAlias, epochExpires, badMaxAge are present in the code.
+StillPresent == <<FALSE, FALSE, TRUE, FALSE, TRUE, TRUE>>
+NoDevs == <<FALSE, FALSE, FALSE, FALSE, FALSE, FALSE>>
 AllSubsets == <<
-    <<TRUE, FALSE, FALSE, FALSE>>,
-    <<FALSE, FALSE, FALSE, TRUE>>,
-    <<FALSE, FALSE, TRUE, FALSE>>,
-    <<FALSE, TRUE, FALSE, FALSE>>,
-    <<TRUE, FALSE, FALSE, TRUE>>,
-    <<TRUE, FALSE, TRUE, FALSE>>,
-    <<TRUE, TRUE, FALSE, FALSE>>,
-    <<FALSE, FALSE, TRUE, TRUE>>,
-    <<FALSE, TRUE, FALSE, TRUE>>,
-    <<FALSE, TRUE, TRUE, FALSE>>,
-    <<TRUE, FALSE, TRUE, TRUE>>,
-    <<TRUE, TRUE, FALSE, TRUE>>,
-    <<TRUE, TRUE, TRUE, FALSE>>,
-    <<FALSE, TRUE, TRUE, TRUE>>,
-    <<TRUE, TRUE, TRUE, TRUE>>
+    <<FALSE, FALSE, TRUE, FALSE, FALSE, FALSE>>,
+    <<FALSE, FALSE, FALSE, FALSE, TRUE, FALSE>>,
+    <<FALSE, FALSE, FALSE, FALSE, FALSE, TRUE>>,
+    <<TRUE, FALSE, FALSE, FALSE, FALSE, FALSE>>,
+    <<FALSE, FALSE, FALSE, TRUE, FALSE, FALSE>>,
+    <<FALSE, TRUE, FALSE, FALSE, FALSE, FALSE>>,
+    <<FALSE, FALSE, TRUE, FALSE, TRUE, FALSE>>,
+    <<FALSE, FALSE, TRUE, FALSE, FALSE, TRUE>>,
+    <<TRUE, FALSE, TRUE, FALSE, FALSE, FALSE>>,
+    <<FALSE, FALSE, TRUE, TRUE, FALSE, FALSE>>,
+    <<FALSE, TRUE, TRUE, FALSE, FALSE, FALSE>>,
+    <<FALSE, FALSE, FALSE, FALSE, TRUE, TRUE>>,
+    <<TRUE, FALSE, FALSE, FALSE, TRUE, FALSE>>,
+    <<FALSE, FALSE, FALSE, TRUE, TRUE, FALSE>>,
+    <<FALSE, TRUE, FALSE, FALSE, TRUE, FALSE>>,
+    <<TRUE, FALSE, FALSE, FALSE, FALSE, TRUE>>,
+    <<FALSE, FALSE, FALSE, TRUE, FALSE, TRUE>>,
+    <<FALSE, TRUE, FALSE, FALSE, FALSE, TRUE>>,
+    <<TRUE, FALSE, FALSE, TRUE, FALSE, FALSE>>,
+    <<TRUE, TRUE, FALSE, FALSE, FALSE, FALSE>>,
+    <<FALSE, TRUE, FALSE, TRUE, FALSE, FALSE>>,
+    <<FALSE, FALSE, TRUE, FALSE, TRUE, TRUE>>,
+    <<TRUE, FALSE, TRUE, FALSE, TRUE, FALSE>>,
+    <<FALSE, FALSE, TRUE, TRUE, TRUE, FALSE>>,
+    <<FALSE, TRUE, TRUE, FALSE, TRUE, FALSE>>,
+    <<TRUE, FALSE, TRUE, FALSE, FALSE, TRUE>>,
+    <<FALSE, FALSE, TRUE, TRUE, FALSE, TRUE>>,
+    <<FALSE, TRUE, TRUE, FALSE, FALSE, TRUE>>,
+    <<TRUE, FALSE, TRUE, TRUE, FALSE, FALSE>>,
+    <<TRUE, TRUE, TRUE, FALSE, FALSE, FALSE>>,
+    <<FALSE, TRUE, TRUE, TRUE, FALSE, FALSE>>,
+    <<TRUE, FALSE, FALSE, FALSE, TRUE, TRUE>>,
+    <<FALSE, FALSE, FALSE, TRUE, TRUE, TRUE>>,
+    <<FALSE, TRUE, FALSE, FALSE, TRUE, TRUE>>,
+    <<TRUE, FALSE, FALSE, TRUE, TRUE, FALSE>>,
+    <<TRUE, TRUE, FALSE, FALSE, TRUE, FALSE>>,
+    <<FALSE, TRUE, FALSE, TRUE, TRUE, FALSE>>,
+    <<TRUE, FALSE, FALSE, TRUE, FALSE, TRUE>>,
+    <<TRUE, TRUE, FALSE, FALSE, FALSE, TRUE>>,
+    <<FALSE, TRUE, FALSE, TRUE, FALSE, TRUE>>,
+    <<TRUE, TRUE, FALSE, TRUE, FALSE, FALSE>>,
+    <<TRUE, FALSE, TRUE, FALSE, TRUE, TRUE>>,
+    <<FALSE, FALSE, TRUE, TRUE, TRUE, TRUE>>,
+    <<FALSE, TRUE, TRUE, FALSE, TRUE, TRUE>>,
+    <<TRUE, FALSE, TRUE, TRUE, TRUE, FALSE>>,
+    <<TRUE, TRUE, TRUE, FALSE, TRUE, FALSE>>,
+    <<FALSE, TRUE, TRUE, TRUE, TRUE, FALSE>>,
+    <<TRUE, FALSE, TRUE, TRUE, FALSE, TRUE>>,
+    <<TRUE, TRUE, TRUE, FALSE, FALSE, TRUE>>,
+    <<FALSE, TRUE, TRUE, TRUE, FALSE, TRUE>>,
+    <<TRUE, TRUE, TRUE, TRUE, FALSE, FALSE>>,
+    <<TRUE, FALSE, FALSE, TRUE, TRUE, TRUE>>,
+    <<TRUE, TRUE, FALSE, FALSE, TRUE, TRUE>>,
+    <<FALSE, TRUE, FALSE, TRUE, TRUE, TRUE>>,
+    <<TRUE, TRUE, FALSE, TRUE, TRUE, FALSE>>,
+    <<TRUE, TRUE, FALSE, TRUE, FALSE, TRUE>>,
+    <<TRUE, FALSE, TRUE, TRUE, TRUE, TRUE>>,
+    <<TRUE, TRUE, TRUE, FALSE, TRUE, TRUE>>,
+    <<FALSE, TRUE, TRUE, TRUE, TRUE, TRUE>>,
+    <<TRUE, TRUE, TRUE, TRUE, TRUE, FALSE>>,
+    <<TRUE, TRUE, TRUE, TRUE, FALSE, TRUE>>,
+    <<TRUE, TRUE, FALSE, TRUE, TRUE, TRUE>>,
+    <<TRUE, TRUE, TRUE, TRUE, TRUE, TRUE>>
 >>
-DevSubsets == SelectSeq(AllSubsets, LAMBDA d : \A i \in 1..4 : d[i] => StillPresent[i])
+DevSubsets == SelectSeq(AllSubsets, LAMBDA d : \A i \in 1..6 : d[i] => StillPresent[i])
 AllDevs == Len(DevSubsets)
 
 CfDev(c, kk) ==
-    LET d == IF kk = 0 THEN <<FALSE, FALSE, FALSE, FALSE>> ELSE DevSubsets[kk]
+    LET d == IF kk = 0 THEN NoDevs ELSE DevSubsets[kk]
     IN [unsafe |-> c.unsafe,
         hosts |-> {c.battery[i].host : i \in 1..Len(c.battery)},
         paths |-> {MkPath(c.battery[i].path) : i \in 1..Len(c.battery)},
         hostOnlyEnforced |-> TRUE, saveHostOnly |-> TRUE,
-        hostOnlyKey |-> d[1], staleExpiry |-> d[2], pathAlias |-> d[3], domainCase |-> d[4]]
+        hostOnlyKey |-> d[1], staleExpiry |-> d[2], pathAlias |-> d[3], domainCase |-> d[4],
+        epochExpires |-> d[5], badMaxAge |-> d[6]]
 
 Q(b) == [host |-> b.host, path |-> MkPath(b.path), scheme |-> b.scheme]
 BatteryOf(c) == [i \in 1..Len(c.battery) |-> Q(c.battery[i])]
